@@ -5,6 +5,7 @@
 import numpy as np
 
 from magpylib._src.display.traces_core import make_Tetrahedron
+from magpylib._src.exceptions import MagpylibBadUserInput
 from magpylib._src.fields.field_BH_tetrahedron import BHJM_magnet_tetrahedron
 from magpylib._src.input_checks import check_format_input_vector
 from magpylib._src.obj_classes.class_BaseExcitations import BaseMagnet
@@ -111,7 +112,7 @@ class Tetrahedron(BaseMagnet):
     @vertices.setter
     def vertices(self, dim):
         """Set Tetrahedron vertices (a,b,c), shape (3,), (meter)."""
-        self._vertices = check_format_input_vector(
+        vertices = check_format_input_vector(
             dim,
             dims=(2,),
             shape_m1=3,
@@ -120,6 +121,12 @@ class Tetrahedron(BaseMagnet):
             sig_type="array_like (list, tuple, ndarray) of shape (4,3)",
             allow_None=True,
         )
+        if vertices is not None and np.linalg.det(vertices[1:] - vertices[0]) == 0:
+            raise MagpylibBadUserInput(
+                "Input parameter `Tetrahedron.vertices` must not be coplanar "
+                "(the tetrahedron has no volume)."
+            )
+        self._vertices = vertices
 
     @property
     def _barycenter(self):
